@@ -92,6 +92,96 @@ def mk_strerrorlen(errnum):
     return Op("strerrorlen_s", [Region(1, msg)], [errnum, ptr(0)], [], [(0, 0, len(msg))], meta)
 
 
+
+WD = ["Sun", "Mon", "Tue", "Wed", "Thu", "Fri", "Sat"]
+MN = ["Jan", "Feb", "Mar", "Apr", "May", "Jun", "Jul", "Aug", "Sep", "Oct", "Nov", "Dec"]
+TMF = ["sec", "min", "hour", "mday", "mon", "year", "wday", "yday", "isdst"]
+TM_OK = dict(sec=59, min=30, hour=23, mday=31, mon=11, year=99, wday=5, yday=364, isdst=0, gmtoff=0)
+
+
+def asctime_text(tm):
+    """glibc's asctime_r: "%.3s %.3s%3d %.2d:%.2d:%.2d %d\n" """
+    return ("%.3s %.3s%3d %.2d:%.2d:%.2d %d\n" % (WD[tm["wday"]] if 0 <= tm["wday"] < 7 else "???", MN[tm["mon"]] if 0 <= tm["mon"] < 12 else "???",
+                                                  tm["mday"], tm["hour"], tm["min"], tm["sec"], 1900 + tm["year"])).encode()
+
+
+def tm_cells(tm):
+    c = [tm[f] & 0xFFFFFFFF for f in TMF] + [0]
+    g = tm["gmtoff"] & 0xFFFFFFFFFFFFFFFF
+    return c + [g & 0xFFFFFFFF, g >> 32, 0, 0]
+
+
+def tm_in_range(tm):
+    lo = all(tm[f] >= (1 if f == "mday" else 0) for f in TMF) and tm["gmtoff"] >= -1036800
+    hi = (tm["year"] <= 8099 and tm["mon"] <= 11 and tm["yday"] <= 365 and tm["mday"] <= 31 and tm["wday"] <= 6 and tm["hour"] <= 23
+          and tm["min"] <= 59 and tm["sec"] <= 60 and tm["isdst"] <= 1 and tm["gmtoff"] <= 1036800)
+    return lo, hi
+
+
+def mk_time(fn, dmax, tm=None, timer=None, prior=None, dnull=False, bos=None, objsize=None, anull=False, tag=""):
+    """fn: asctime_s (tm: dict) or ctime_s (timer: int)"""
+    objsize = objsize if objsize is not None else max(dmax, 1)
+    dcells = (list(prior or []) + [X] * objsize)[:objsize]
+    check = 0
+    if fn == "asctime_s":
+        arg = Region(4, tm_cells(tm))
+        lo, hi = tm_in_range(tm)
+        text = asctime_text(tm) if (lo and hi) else b"?\n"
+        check = 1 if (lo and hi) else 0
+    else:
+        arg = Region(8, [timer & 0xFFFFFFFFFFFFFFFF])
+        ok = 0 <= timer < 253402300800
+        import time as _t
+        text = (_t.asctime(_t.gmtime(timer)) + "\n").encode() if ok else b"?\n"
+        check = 1 if ok else 0
+    regs = [Region(1, dcells), arg, Region(1, (list(text) + [0]) if text is not None else [0])]
+    d = "null" if dnull else ptr(0)
+    a = "null" if anull else ptr(1)
+    W = [] if dnull else [(0, 0, min(dmax, objsize))]
+    Rd = list(W) + ([] if anull else [(1, 0, len(arg.cells))]) + [(2, 0, len(text or b"") + 1)]
+    meta = dict(fam="os", fn=fn, w=1, dest=None if dnull else (0, 0), dmax=dmax, bos=bos, objsize=objsize, src=None if anull else (1, 0),
+                tm=tm, timer=timer, anull=anull, text=list(text) if text is not None else None, prior=dcells,
+                truthful=(dnull or dmax <= objsize) and (bos is None or bos <= objsize), tag=tag)
+    return Op(fn, regs, [d, dmax, a, bosarg(bos), "null" if text is None else ptr(2), check if not anull else 0], W, Rd, meta)
+
+
+def gen_time(rng, tier, ops):
+    for dmax in (0, 1, 25, 26, 27, 40, 119, 120, 121, 128, 200):
+        ops.append(mk_time("asctime_s", dmax, tm=dict(TM_OK), tag="fit"))
+        ops.append(mk_time("asctime_s", dmax, tm=dict(TM_OK), prior=[0x51] * dmax, tag="dirty"))
+        ops.append(mk_time("ctime_s", dmax, timer=1000000000, tag="fit"))
+        ops.append(mk_time("ctime_s", dmax, timer=1000000000, prior=[0x51] * dmax, tag="dirty"))
+    for fn, kw in (("asctime_s", dict(tm=dict(TM_OK))), ("ctime_s", dict(timer=86399))):
+        ops.append(mk_time(fn, 64, dnull=True, tag="dnull", **kw))
+        ops.append(mk_time(fn, 64, anull=True, tag="anull", **kw))
+        ops.append(mk_time(fn, 64, dnull=True, anull=True, tag="dnull+anull", **kw))
+        for dmax, bos, obj in ((64, 64, 64), (26, 64, 64), (65, 64, 65), (26, 26, 26), (26, 25, 26), (30, 25, 30), (LIMS + 1, 64, 64), (130, 200, 200),
+                               (LIMS + 1, LIMS + 100, LIMS + 100), (LIMS + 100, LIMS + 100, LIMS + 100)):
+            ops.append(mk_time(fn, dmax, bos=bos, objsize=obj, tag="bos", **kw))
+        ops.append(mk_time(fn, LIMS + 1, objsize=64, tag="limit+1", **kw))
+        ops.append(mk_time(fn, LIMS, objsize=LIMS, tag="limit", **kw))
+    # every field of struct tm at, below and above its documented range
+    rngs = dict(sec=(0, 60), min=(0, 59), hour=(0, 23), mday=(1, 31), mon=(0, 11), year=(0, 8099), wday=(0, 6), yday=(0, 365), isdst=(0, 1),
+                gmtoff=(-1036800, 1036800))
+    for f, (lo, hi) in rngs.items():
+        for v in (lo - 1, lo, hi, hi + 1, -2147483648 if f != "gmtoff" else -(1 << 40), 2147483647 if f != "gmtoff" else (1 << 40)):
+            tm = dict(TM_OK); tm[f] = v
+            for dmax in (64, 128):
+                ops.append(mk_time("asctime_s", dmax, tm=tm, prior=[0x51] * dmax, tag="field:" + f))
+    for t in (0, 1, 59, 86399, 86400, 951782400, 2147483647, 2147483648, 4102444800, 253402300799, 253402300800, 313360441199, 313360441200,
+              1 << 40, -1, -(1 << 62), (1 << 63) - 1):
+        for dmax in (26, 64, 128):
+            ops.append(mk_time("ctime_s", dmax, timer=t, prior=[0x51] * dmax, tag="timer"))
+    n = 100 if tier == "quick" else 3000
+    for _ in range(n):
+        tm = dict(sec=rng.randint(0, 60), min=rng.randint(0, 59), hour=rng.randint(0, 23), mday=rng.randint(1, 31), mon=rng.randint(0, 11),
+                  year=rng.choice([rng.randint(0, 200), rng.randint(0, 8099)]), wday=rng.randint(0, 6), yday=rng.randint(0, 365), isdst=rng.randint(0, 1),
+                  gmtoff=rng.choice([0, 3600, -18000]))
+        dmax = rng.choice([26, 27, 32, 119, 120, 121, 300])
+        ops.append(mk_time("asctime_s", dmax, tm=tm, prior=[rng.choice([0x51, 0, 0x41]) for _ in range(dmax)], tag="random"))
+        ops.append(mk_time("ctime_s", dmax, timer=rng.choice([rng.randint(0, 1 << 31), rng.randint(0, 313360441199)]),
+                           prior=[rng.choice([0x51, 0, 0x41]) for _ in range(dmax)], tag="random"))
+
 ERRNUMS = list(range(400, 411)) + [0, 1, 2, 9, 12, 22, 34, 75, 84, 133, 134, 399, 411, 4095, -1, -400, 1 << 20]
 
 
@@ -130,6 +220,7 @@ def gen(rng, tier):
             ops.append(mk_strerror(e, dmax, bos=bos, objsize=max(bos, dmax), tag="bos"))
         ops.append(mk_strerror(e, LIMS + 1, objsize=8, tag="limit+1"))
         ops.append(mk_strerror(e, LIMS, objsize=LIMS, tag="limit"))
+    gen_time(rng, tier, ops)
     n = 200 if tier == "quick" else 4000
     for _ in range(n):
         if rng.random() < 0.5:
@@ -156,6 +247,45 @@ def annotate(op):
                  violname="", ref=dict(count=len(m["msg"])))
         return
     m.update(hkind="S", retkind="e", producing=True, clears=False, slackdoc=(fn == "getenv_s"), limit=LIMS)
+    if fn in ("asctime_s", "ctime_s"):
+        # @retval: ESNULLP dest/tm(timer) null; ESLEMIN dmax < 26 or a member / the time below its range; ESLEMAX dmax > RSIZE_MAX_STR or
+        # above the range; EOVERFLOW dmax > size of dest; ESNOSPC dmax too small for the result; the result is libc's 26-byte text
+        m["slackdoc"] = False      # no promise about the slack in the documentation of the two
+        m["clears"] = True
+        if m["dest"] is None:
+            viol.add(ESNULLP); names.append("dest-null")
+        if dmax < 26:
+            viol.add(ESLEMIN); names.append("dmax-min")
+        if dmax > LIMS:
+            if bos is not None and dmax <= bos:
+                opt.add(ESLEMAX); names.append("dmax-max-within-bos")
+            else:
+                viol.add(ESLEMAX); names.append("dmax-max")
+        if bos is not None and dmax > bos:
+            viol.add(EOVERFLOW); names.append("dmax-bos")
+        if bos is not None and bos < 26 and dmax >= 26:
+            viol.add(ESLEMIN); names.append("bos-min")
+        if m["anull"]:
+            viol.add(ESNULLP); names.append("arg-null")
+        elif fn == "asctime_s":
+            lo, hi = tm_in_range(m["tm"])
+            if not lo:
+                viol.add(ESLEMIN); names.append("tm-min")
+            if not hi:
+                viol.add(ESLEMAX); names.append("tm-max")
+        else:
+            if m["timer"] < 0:
+                viol.add(ESLEMIN); names.append("timer-min")
+            if m["timer"] >= 253402300800:    # 01.01.10000 00:00 UTC
+                viol.add(ESLEMAX); names.append("timer-max")
+        if not viol and m["text"] is None:
+            ref["ret"] = 0xFFFFFFFF; ref["libc_null"] = True
+        elif not viol and m["truthful"]:
+            ref["cells"] = list(m["text"]) + [0]
+        if viol:
+            viol |= opt
+        m.update(viol=viol, viol_opt=opt, violname="+".join(names), ref=ref)
+        return
     if fn == "getenv_s":
         m["benign"] = (-1,)
         v = m["value"]
